@@ -584,6 +584,19 @@ def rule_prefix_decay(ctx):
     cands = [l for l in range(1, len(fn.b["locals"])) if fn.names.get(l) == "prefix_bonus" and fn.b["locals"][l]["ty"] == "u16"]
     if not cands:
         raise Inconclusive("score_row: no u16 local named prefix_bonus")
+    # the by-value parameter of a folded-in helper is a per-column copy of the loop-carried bonus, not a bonus of its own
+    def is_copy(l):
+        ds = fn.defs.get(l, [])
+        if not ds:
+            return False
+        for bi, si, kind, rv in ds:
+            if kind != "assign" or not isinstance(rv.get("use"), dict):
+                return False
+            e = strip_casts(fn.expr_of_rvalue(rv))
+            if e[0] not in ("arg", "local") or e[1] not in cands or e[1] == l:
+                return False
+        return True
+    cands = [l for l in cands if not is_copy(l)]
     n = 0
     for L in cands:
         refs = set()
